@@ -5,6 +5,7 @@ package dnsforward
 // C08 — ignored names/clients and un-anonymised addresses never reach the query
 // log or the statistics.
 //
+//vx:native
 //vx:overlay internal/dnsforward/zz_vx_c08.go
 //vx:entry vxC08Record reach=logged,counted,log-only,stats-only,neither,any-refused,name-ignored-log,name-ignored-stats,client-ignored-log,client-ignored-stats,masked-v4,plain,clientid-counted,address-counted
 //vx:entry vxC08Anonymise reach=logged,counted,masked-v4,masked-v6,masked-4in6,plain,clientid-counted,address-counted
